@@ -90,13 +90,15 @@ def stepH (ws : List String) (impl : String) : String :=
         if encTok mSrc != src then s!"DIFF render model={encTok mSrc}"
         else if encTok mHand != handI then s!"DIFF hand-expansion of the generator differs from the specification model={encTok mHand}"
         else
-          let mOut := (showOutcome (expand mSrc)).replace " " "\\s"
-          if mOut != out then s!"DIFF model={mOut}"
-          else if wellFormed unit bs then
-            if out != handI then s!"JUDGE C42 expansion of a well-formed loop block differs from the hand-written copies: {out}"
-            else if ast.startsWith "eq" || ast == "err-both" then "ok well-formed"
-            else s!"JUDGE C42 parse(loop program) and parse(hand-expanded program) differ: ast={ast}"
-          else "ok not-well-formed (mirror only)"
+          -- the property verdict first (a failing input), then the mirror
+          let wf := wellFormed unit bs
+          if wf && out != handI then s!"JUDGE C42 expansion of a well-formed loop block differs from the hand-written copies: {out}"
+          else if wf && !(ast.startsWith "eq" || ast == "err-both") then
+            s!"JUDGE C42 parse(loop program) and parse(hand-expanded program) differ: ast={ast}"
+          else
+            let mOut := (showOutcome (expand mSrc)).replace " " "\\s"
+            if mOut != out then s!"DIFF model={mOut}"
+            else if wf then "ok well-formed" else "ok not-well-formed (mirror only)"
       | _, _, _, _ => "BADLINE fields"
     | _, _ => "BADLINE blocks"
   | [] => "BADLINE"
